@@ -101,7 +101,7 @@ func main() {
 }
 
 func parentRun(r *lib.Run) {
-	segs, total := caseList(r.Quick())
+	segs, total := caseList(r.Quick() || os.Getenv("VERIF_C01_RACE") == "1")
 	r.SetRule("cases = seed-determined list over {TALKREQ on each portal sub-protocol (direct handler call and over the in-memory discv5 link), the four TALKRESP kinds (direct response processors and over the wire as answers to the node's own requests), " +
 		"uTP stream bodies after a genuine ACCEPT, raw uTP packets on the utp channel, (content key, content) through ValidateContent and, when accepted, ContentStorage.Put, ContentStorage.Get for peer-chosen keys} x {history, beacon, state nodes with real storage adapters and validators}; " +
 		"inputs: valid messages, structure-aware mutations, boundary lengths 0/1/2, unknown codes/selectors, the full key matrix (type byte 0x00..0xff x lengths 0,1,2,8,9,10,32,33,34,41,42,64,65,2048), mutated genuine vectors. " +
@@ -126,7 +126,9 @@ func parentRun(r *lib.Run) {
 		cmd := exec.Command(os.Args[0], r.Tier, "--exec", strconv.Itoa(next), strconv.Itoa(total), prog, res)
 		cmd.Stdout = ef
 		cmd.Stderr = ef
-		cmd.Env = append(os.Environ(), "GOTRACEBACK=all", fmt.Sprintf("VERIF_SEED=%d", r.Seed))
+		cmd.Env = append(os.Environ(), "GOTRACEBACK=all", fmt.Sprintf("VERIF_SEED=%d", r.Seed),
+			// only relevant for the -race build of the thorough tier (checkptr is on there): reports are logged, never fatal
+			"GORACE=halt_on_error=0 exitcode=0 log_path="+filepath.Join(outDir, "race-"+r.Tier))
 		err := cmd.Run()
 		ef.Close()
 		code := 0
@@ -210,6 +212,15 @@ func parentRun(r *lib.Run) {
 		var b [8]byte
 		binary.LittleEndian.PutUint64(b[:], h)
 		r.DistinctBytes(b[:])
+	}
+	if reps := lib.ParseRaceLogs(filepath.Join(outDir, "race-"+r.Tier)); len(reps) > 0 {
+		// a data race is not a crash: listed for information (C05/C07/C09/C10/C16 judge races on their own state)
+		pairs := map[string]int{}
+		for _, rep := range reps {
+			pairs[rep.PairSignature()]++
+		}
+		r.Extra("race_reports_info", pairs)
+		r.Count("race_reports_info", len(reps))
 	}
 	r.Count("child_restarts", restarts)
 	r.Count("process_crashes", crashes)
